@@ -170,6 +170,22 @@ func solveOne(o *Obligation, cfg SolveCfg, w int) {
 		seq = []int{0, 1, 2}
 	}
 	if o.Canary {
+		// a contradiction among the quantifier-free assumptions shows up in the relaxation at once
+		if rq, changed := relaxQuery(o.Query); changed {
+			rf := filepath.Join(cfg.TmpDir, "c_"+h[:16]+".smt2")
+			if err := os.WriteFile(rf, []byte(rq), 0o644); err == nil {
+				res, _, el := runSolver(solvers[0], rf, 5)
+				os.Remove(rf)
+				if res == "unsat" {
+					o.Result, o.Solver, o.Time = "unsat", solvers[0].name+" (quantifier-free relaxation)", el
+					return
+				}
+				if res == "sat" && !strings.Contains(o.Query, "(forall") {
+					o.Result, o.Solver, o.Time = "sat", solvers[0].name, el
+					return
+				}
+			}
+		}
 		// vacuity canaries only need "not refuted": one solver, short limit
 		seq = []int{0}
 		if cfg.TimeoutS > 5 {
